@@ -422,6 +422,8 @@ def run(ctx) -> None:
     ctx.rule("C14.A5-destination-never-removed", "the state file itself is never removed/unlinked/truncated by its writer: only the "
              "atomic rename replaces it (between a remove and the rename no version exists on disk)")
     ctx.rule("C14.A4-serialiser-is-pure", "the serialiser does not modify the object it persists")
+    ctx.rule("C14.R8-values-are-written-whole", "the serialiser of the status file writes every value whole: no slice of a value (a length cap) on the way to "
+             "the stream - a truncated value is not the value last written, and a cut inside an escape sequence leaves a file the loader rejects")
     ctx.rule("C14.A7-complete-writes", "no writer hands bytes to a raw os.write and drops the count it returns (a short write must not be published)")
     ctx.rule("C14.R5-escape-agreement", "keys escaped by Status.writeToStream equal keys unescaped by Status.statusFromFile with inverse codecs; one 'key=value' line per key")
     ctx.assume("os.rename within one directory is atomic (POSIX); durability (fsync) is not part of the property")
@@ -465,6 +467,20 @@ def run(ctx) -> None:
     r = d.func("Status.statusFromFile")
     ctx.analysed(w)
     ctx.analysed(r)
+    # R8: nothing on the write path takes a PART of a value.  The escaped error description of a deep traceback is long; a cap such as
+    # value[:8192] returns a truncated description on read-back, and when the cut falls inside an escape sequence ('\\x..', a trailing
+    # backslash) statusFromFile raises UnicodeDecodeError on a fully renamed file
+    cuts = [x for x in ast.walk(w) if isinstance(x, ast.Subscript) and isinstance(x.slice, ast.Slice)]
+    cuts += [x for x in ast.walk(w) if isinstance(x, ast.Call) and (call_name(x) or "").split(".")[-1] in ("shorten", "wrap", "truncate")]
+    for x in cuts:
+        ctx.ob("C14.R8-values-are-written-whole", x, False,
+               "Status.writeToStream writes only a part of a value (%s): an error description longer than the cap is read back truncated although update() "
+               "reported success, and a cut that lands inside an escape sequence of the escaped text leaves a status.txt that statusFromFile cannot "
+               "decode (UnicodeDecodeError; Experiment.__init__ only guards that call with 'except OSError')" % short(x, 60),
+               construct="Status.writeToStream: values are written whole")
+    if not cuts:
+        ctx.ob("C14.R8-values-are-written-whole", w, True, "Status.writeToStream takes no slice of the values it writes",
+               construct="Status.writeToStream: values are written whole")
 
     def codec_keys(fn, enc_name, dec_name):
         keys = {}
